@@ -6,7 +6,9 @@
 
 mod cfg;
 mod decode;
+mod econc;
 mod eio;
+mod elock;
 mod io_rec;
 mod shadow;
 mod emodel;
@@ -28,6 +30,10 @@ fn main() -> ExitCode {
         "check" => runner::cmd_check(&args[2..]),
         "child" => runner::cmd_child(&args[2..]),
         "replay" => runner::cmd_replay(&args[2..]),
+        "lockchild" => {
+            let code = elock::lockchild(&args[2..]);
+            unsafe { libc::_exit(code) }
+        }
         "killchild" => {
             let code = eio::killchild(&args[2..]);
             unsafe { libc::_exit(code) }
